@@ -5,5 +5,7 @@ MC_Ranges4 == {<<2, 4>>, <<1, 3>>}
 MC_Skips22 == {<<0, 3, 2, 3>>, <<2, 3, 1, 2>>}
 MC_Ranges6 == {<<2, 5>>, <<3, 7>>}
 MC_Skips23 == {<<0, 3, 2, 4>>, <<1, 2, 1, 3>>, <<2, 3, 2, 3>>}
+MC_Ranges4a == {<<2, 4>>}
+MC_Skips22a == {<<0, 3, 2, 3>>}
 MC_None == {}
 ====
